@@ -36,6 +36,7 @@ import (
 
 const (
 	c32MaxStored = 100 // from the statement, not from the code
+	c32SigStale  = "C32: a retry timer left in the wheel by an earlier handshake to the same address drives the next pending handshake (attempt or give-up ahead of its own linear delay)"
 )
 
 var (
@@ -105,6 +106,12 @@ type c32Model struct {
 	lastTx  string // remotes at the last attempt
 	done    bool
 	expect  []int // markers the peer's tun must have received, in order
+	// retry timers that earlier handshakes to the same address left in the wheel (a handshake dropped by a lighthouse
+	// trigger after its last attempt does not take its timer with it). The statement knows one handshake and one
+	// delay sequence; if such a leftover drives the NEXT handshake the early attempt / give-up is reported under its
+	// own signature.
+	stale   []vtime.Duration // latest expiry of each leftover timer
+	tainted bool             // this handshake started while a leftover timer was (possibly) still in the wheel
 	// statistics (vacuity guards)
 	stats *c32Stats
 }
@@ -123,6 +130,7 @@ type c32Stats struct {
 	minTxBeforeGiveUp map[int]int // by retries: fewest transmissions seen before a handshake was abandoned
 	txThisGen         int
 	exactly100        int64
+	taintedStarts     int64
 }
 
 func c32NewStats() *c32Stats {
@@ -195,7 +203,16 @@ func (m *c32Model) step(e c32Ev, o c32Obs, replyGen int, firstMarker int) []c32P
 		m.stats.txThisGen++
 		m.lastTx = c32RemKey(m.remotes)
 	}
+	early := func(sig, format string, a ...any) {
+		if m.tainted {
+			sig = c32SigStale
+		}
+		bad(sig, format, a...)
+	}
 	abandon := func() {
+		if m.timer {
+			m.stale = append(m.stale, m.hi)
+		}
 		m.stats.abandons[m.cfg.R]++
 		if v, ok := m.stats.minTxBeforeGiveUp[m.cfg.R]; !ok || m.stats.txThisGen < v {
 			m.stats.minTxBeforeGiveUp[m.cfg.R] = m.stats.txThisGen
@@ -245,6 +262,13 @@ func (m *c32Model) step(e c32Ev, o c32Obs, replyGen int, firstMarker int) []c32P
 				// starts a new handshake
 				m.pending, m.counter, m.timer = true, 0, true
 				m.gen++
+				m.tainted = false
+				for _, hi := range m.stale {
+					if hi > m.now {
+						m.tainted = true
+						m.stats.taintedStarts++
+					}
+				}
 				m.stats.txThisGen = 0
 				m.lastTx = ""
 				m.lo, m.hi = m.now+I, m.now+2*I
@@ -305,10 +329,10 @@ func (m *c32Model) step(e c32Ev, o c32Obs, replyGen int, firstMarker int) []c32P
 		}
 		if !fire {
 			if o.txTotal() > 0 {
-				bad("C32: retransmission sent before the linearly growing delay had elapsed", "attempt %d at +%v, not due before +%v; tx=%v", m.counter+1, m.now, m.lo, o.tx)
+				early("C32: retransmission sent before the linearly growing delay had elapsed", "attempt %d at +%v, not due before +%v; tx=%v", m.counter+1, m.now, m.lo, o.tx)
 			}
 			if !o.pending {
-				bad("C32: pending handshake removed before its retry timer expired", "attempts=%d of %d at +%v, timer window (%v,%v]", m.counter, m.cfg.R, m.now, m.lo, m.hi)
+				early("C32: pending handshake removed before its retry timer expired", "attempts=%d of %d at +%v, timer window (%v,%v]", m.counter, m.cfg.R, m.now, m.lo, m.hi)
 			}
 			break
 		}
@@ -317,11 +341,12 @@ func (m *c32Model) step(e c32Ev, o c32Obs, replyGen int, firstMarker int) []c32P
 			if o.pending || o.pendIdx != 0 {
 				bad("C32: pending entry or its index still present after the configured number of attempts timed out", "attempts=%d retries=%d pending=%v pendingIndexes=%d at +%v (window (%v,%v])", m.counter, m.cfg.R, o.pending, o.pendIdx, m.now, m.lo, m.hi)
 			}
+			m.timer = false
 			abandon()
 			break
 		}
 		if !o.pending {
-			bad("C32: pending handshake abandoned before the configured number of attempts", "attempts=%d retries=%d at +%v", m.counter, m.cfg.R, m.now)
+			early("C32: pending handshake abandoned before the configured number of attempts", "attempts=%d retries=%d at +%v", m.counter, m.cfg.R, m.now)
 			abandon()
 			break
 		}
@@ -423,6 +448,7 @@ type c32World struct {
 	events   int64
 	problems []c32Problem
 	hist     []c32Ev
+	dead     bool // a disagreement was found: model and node are out of step, nothing further is judged on this instance
 }
 
 func c32OutboundRules(fw string) []any {
@@ -584,6 +610,9 @@ func (w *c32World) enabled(e c32Ev) bool {
 
 // apply executes one event on the real nodes, then on the model, and records every disagreement.
 func (w *c32World) apply(e c32Ev) {
+	if w.dead {
+		return
+	}
 	o := c32Obs{tx: map[netip.AddrPort]int{}}
 	replyGen := -1
 	first := len(w.pkts)
@@ -634,6 +663,10 @@ func (w *c32World) apply(e c32Ev) {
 	got := w.net.tunLog["peer"]
 	if ok, why := w.tunMatches(got); !ok {
 		probs = append(probs, c32Problem{"C32: the peer did not receive exactly the firewall-allowed subsequence of the first 100 queued packets, each once, in order", why})
+	}
+	if len(probs) > 0 {
+		w.dead = true
+		probs = probs[:1] // the first disagreement is the finding; the rest is fallout
 	}
 	w.problems = append(w.problems, probs...)
 }
@@ -716,7 +749,7 @@ func (w *c32World) key() string {
 	for _, x := range w.pool2 {
 		fmt.Fprintf(&sb, "%d,", m.gen-x.gen)
 	}
-	fmt.Fprintf(&sb, "] nq=%d nlh1=%d", w.nQ, w.nLh1)
+	fmt.Fprintf(&sb, "] nq=%d nlh1=%d tainted=%v", w.nQ, w.nLh1, m.tainted && m.pending)
 	return sb.String()
 }
 
@@ -756,7 +789,7 @@ func (r *c32Run) report(w *c32World) {
 func (r *c32Run) stop() bool { return r.nviol > 50 || r.c.OutOfTime() }
 
 func c32Menu(w *c32World, halfSteps []int, maxQ, maxLh1 int) []c32Ev {
-	if w.model.done {
+	if w.model.done || w.dead {
 		return nil // terminal: judged by postCompletion on the same instance
 	}
 	var menu []c32Ev
@@ -774,7 +807,7 @@ func c32Menu(w *c32World, halfSteps []int, maxQ, maxLh1 int) []c32Ev {
 	if w.nLh1 < maxLh1 {
 		menu = append(menu, c32Ev{"lh1", 0})
 	}
-	if w.nQ < maxQ {
+	if w.nQ < maxQ+1 {
 		menu = append(menu, c32Ev{"q", 1})
 	}
 	return menu
@@ -803,7 +836,7 @@ func (r *c32Run) bfs(cfg c32Cfg, depth int, halfSteps []int, maxQ, maxLh1 int) {
 			r.runs++
 			key := w.key()
 			menu := c32Menu(w, halfSteps, maxQ, maxLh1)
-			if w.model.done && !judged[key] {
+			if w.model.done && !w.dead && !judged[key] {
 				judged[key] = true
 				w.postCompletion()
 			}
@@ -838,7 +871,7 @@ func (r *c32Run) scripted(e *mc.Enum, quick bool) {
 		w.apply(c32Ev{"q", n0})
 	}
 	extrasDone := false
-	for guard := 0; guard < 200 && w.model.pending; guard++ {
+	for guard := 0; guard < 200 && w.model.pending && !w.dead; guard++ {
 		if w.model.counter >= 1 && !extrasDone {
 			extrasDone = true
 			for i := 0; i < later; i++ {
@@ -850,15 +883,19 @@ func (r *c32Run) scripted(e *mc.Enum, quick bool) {
 		}
 		if w.model.counter >= j && len(w.pool1) > 0 {
 			w.apply(c32Ev{"s1", len(w.pool1) - 1})
+			if len(w.pool2) == 0 {
+				r.c.Broken("peer did not answer the first message: %v", w.hist)
+			}
 			w.apply(c32Ev{"s2", len(w.pool2) - 1})
 			break
 		}
 		w.apply(c32Ev{"t", step})
 	}
-	if w.model.pending {
+	if w.model.pending && !w.dead {
 		r.c.Broken("scripted history did not terminate: %v", w.hist)
 	}
-	if w.model.done {
+	if w.dead {
+	} else if w.model.done {
 		w.postCompletion()
 	} else {
 		// abandoned: late deliveries must not resurrect anything
@@ -953,6 +990,7 @@ func TestVerifC32(t *testing.T) {
 	c.Set("completions_fw_filtered_some_all_none", fmt.Sprintf("%d/%d/%d", st.fwFiltered, st.fwAll, st.fwNone))
 	c.Set("late_replies_after_abandon", st.lateReply)
 	c.Set("max_stored", st.maxStored)
+	c.Set("handshakes_started_with_a_leftover_timer_in_the_wheel", st.taintedStarts)
 	c.Set("min_transmissions_before_give_up_by_retries", fmt.Sprint(st.minTxBeforeGiveUp))
 	c.Set("distinct_outcomes", len(st.completeAtAttempt)+len(st.abandons))
 	c.Set("explanation", "states = distinct canonical (node+model+pool) states of the BFS plus distinct final states of the scripted product; transitions = histories executed on two real nodes; every event of every history is judged against the reference counter model")
